@@ -130,11 +130,32 @@ impl<Meta> Archive<Meta> {
         }
         let meta = ArchiveMeta::read(&mut file)?;
 
-        Ok(Self {
+        let res = Self {
             file: Storage::new(file, writable)?,
             meta,
             marker: PhantomData,
-        })
+        };
+        res.check_index()?;
+        Ok(res)
+    }
+
+    /// Checks that the index described by the meta data fits the file.
+    ///
+    /// The bucket count is read from the file and everything else relies
+    /// on it being non-zero and the index being inside the file.
+    fn check_index(&self) -> Result<(), ArchiveError> {
+        let end = self.meta.bucket_count.checked_add(1).and_then(|count| {
+            count.checked_mul(Self::BUCKET_SIZE)
+        }).and_then(|size| {
+            u64::try_from(size).ok()
+        }).and_then(|size| {
+            size.checked_add(usize_to_u64(MAGIC_SIZE) + ArchiveMeta::size())
+        });
+        match end {
+            Some(end) if self.meta.bucket_count > 0
+                && end <= self.file.size => Ok(()),
+            _ => Err(ArchiveError::Corrupt("invalid bucket count"))
+        }
     }
 
     /// Verifies the consistency of an archive.
